@@ -112,6 +112,36 @@ def gen_scalar_case(r, maxsteps):
     return ops
 
 
+def gen_ls_case(r, maxsteps, converge=False):
+    """BFGS / CG / L-BFGS (box constraints: L-BFGS only) / trust-region Newton"""
+    kind = r.choice(["bfgs", "bfgs", "cg", "cg", "lbfgs", "lbfgs", "lbfgs", "trn"])
+    boxed = (kind == "lbfgs" and r.chance(1, 2)) and not converge
+    while True:
+        ops, n, okind, box = gen_objective(r, boxed=boxed)
+        if not converge or okind[0] == "quad":
+            break
+    ls = 2 if boxed else r.choice([0, 1, 1, 2, 2])
+    if kind == "trn":
+        ops.append("opt trn")
+    elif kind == "lbfgs":
+        ops.append("opt lbfgs " + nums([ls, r.choice([1, 2, 3, 5, 100])]))
+    else:
+        ops.append(f"opt {kind} " + nums([ls]))
+    ops.append("init " + nums(gen_x0(r, n, box, small=(okind[0] == "rosen"))))
+    nsteps = max(maxsteps, 60) if converge else r.range(1, maxsteps)
+    nsave = 0 if converge else r.choice([0, 1, 1, 2, 3])
+    saves = sorted(r.range(0, nsteps) for _ in range(nsave))
+    for i in range(nsteps + 1):
+        for sv in saves:
+            if sv == i:
+                ops.append("save %s %s" % (r.choice(["text", "bin"]), r.choice(["strict", "lenient"])))
+        if i < nsteps:
+            ops.append("step")
+    if converge:
+        ops.append("converged " + fb(1e-6))
+    return ops
+
+
 def case_info(ops):
     info = {"opt": "?", "obj": "?", "n": 0, "box": False, "saves": [], "steps": 0}
     for o in ops:
@@ -167,6 +197,66 @@ def run_case(ctx, hcmd, dcmd, ops, timeout=120, stats=None):
     return r
 
 
+LS_KINDS = ("bfgs", "cg", "lbfgs")
+
+
+def run_case_ls(ctx, hcmd, dcmd, ops, timeout=120, stats=None):
+    """line-search optimizers and trust-region Newton: the harness runs first; every reported state is
+    then handed to the driver, which re-computes the step with the model from the *previous reported
+    state* (one-step refinement, no error accumulation) and answers `ok bits`, `ok tol <fields>` or
+    `MISMATCH <field>`.  Trust-region Newton has no model: harness oracle only."""
+    import subprocess
+    r = Res()
+    e = dict(os.environ); e.setdefault("ASAN_OPTIONS", "detect_leaks=0"); e.setdefault("UBSAN_OPTIONS", "print_stacktrace=1")
+    try:
+        ph = subprocess.run(hcmd, input="\n".join(ops) + "\n", stdout=subprocess.PIPE, stderr=subprocess.PIPE,
+                            text=True, errors="replace", timeout=timeout, env=e)
+        r.impl, r.stderr, rc = ph.stdout.splitlines(), ph.stderr[-3000:], ph.returncode
+    except subprocess.TimeoutExpired:
+        r.impl, r.stderr, rc = [], "TIMEOUT", -99
+    if rc != 0:
+        r.crash, r.ok = True, False
+    dops, expect, kind = [], [], None
+    for i, o in enumerate(ops):
+        t = o.split()
+        line = r.impl[i] if i < len(r.impl) else ""
+        payload, fl, orc = split_line(line)
+        if orc:
+            r.oracle.append(line); r.ok = False
+        m = re.search(r" st=(\S+)", payload)
+        if t[0] in ("obj", "box"):
+            dops.append(o); expect.append("plain")
+        elif t[0] == "opt":
+            kind = t[1]
+            if kind in LS_KINDS:
+                ls = int(struct.unpack("<d", bytes.fromhex(t[2][1:])[::-1])[0])
+                nh = int(struct.unpack("<d", bytes.fromhex(t[3][1:])[::-1])[0]) if kind == "lbfgs" else 100
+                dops.append(f"xopt {kind} {ls} {nh}")
+            else:
+                dops.append("")
+            expect.append("plain")
+        elif t[0] in ("init", "step") and kind in LS_KINDS and m:
+            dops.append(("xinit " if t[0] == "init" else "xstep ") + m.group(1)); expect.append("verdict")
+        else:
+            dops.append(""); expect.append("skip")
+    pd = subprocess.run(dcmd, input="\n".join(dops) + "\n", stdout=subprocess.PIPE, stderr=subprocess.PIPE,
+                        text=True, errors="replace", timeout=timeout)
+    r.model = pd.stdout.splitlines()
+    for i, ex in enumerate(expect):
+        got = r.model[i] if i < len(r.model) else "<missing>"
+        if ex == "verdict":
+            if stats is not None:
+                k = "bits" if got == "ok bits" else ("tol" if got.startswith("ok tol") else "mismatch")
+                stats[k] = stats.get(k, 0) + 1
+            if not got.startswith("ok"):
+                if r.diff_at is None: r.diff_at, r.why = i, "model-differs:" + got.replace(" ", "-")
+                r.ok = False
+        elif ex == "plain" and got not in ("ok", ""):
+            if r.diff_at is None: r.diff_at, r.why = i, "driver:" + got
+            r.ok = False
+    return r
+
+
 def classify(ops, res):
     info = case_info(ops)
     opt = info["opt"]
@@ -181,7 +271,7 @@ def classify(ops, res):
     if first_bad is None:
         first_bad = res.diff_at
     saves_before = [o.split()[2] for o in ops[:(first_bad if first_bad is not None else len(ops)) + 1] if o.startswith("save")]
-    if saves_before and (res.crash or "resume-diverged" in tags or "exception" in tags or res.why == "model-differs"):
+    if saves_before and (res.crash or "resume-diverged" in tags or "exception" in tags or res.why.startswith("model-differs")):
         mode = saves_before[-1]
         how = "crash" if res.crash else ("exception" if "exception" in tags else "diverged")
         return (f"F8-resume:{opt}:{mode}",
@@ -195,7 +285,7 @@ def classify(ops, res):
     return f"mismatch:{res.why}:{opt}", f"model and implementation disagree ({res.why}) at line {res.diff_at} of ops {ops}"
 
 
-def correspond(ctx, name, cases, hcmd, dcmd, max_report=6, keep_prefix=0):
+def correspond(ctx, name, cases, hcmd, dcmd, max_report=6, keep_prefix=0, run_case=run_case):
     """like core.correspond, with the #ex/#rat flag logic of run_case above"""
     t = time.time()
     stats = {}
@@ -285,11 +375,26 @@ def run(ctx):
     ctx.cov["distinct_nontrivial"] = len({"\n".join(c) for c in cases if case_info(c)["steps"] >= 3})
     ctx.sample({"ops": cases[len(cases) // 2][:8]})
     correspond(ctx, "K-C10[scalar]", cases, [exe], [drv])
+    nls, maxls, nconv = (160, 25, 12) if ctx.quick else (1500, 80, 150)
+    lcases = [c for c in corpus if case_info(c)["opt"] not in ("sd", "adam", "rprop")]
+    lcases += [gen_ls_case(r, maxls) for _ in range(nls)]
+    lcases += [gen_ls_case(r, 60 if ctx.quick else 200, converge=True) for _ in range(nconv)]
+    record(ctx, lcases)
+    for c in lcases:
+        for o in c:
+            if o.startswith("opt ") and o.split()[1] in LS_KINDS:
+                ctx.hist("line_search_type", {0: "dlinmin", 1: "wolfecubic", 2: "backtracking"}[
+                    int(struct.unpack(">d", bytes.fromhex(o.split()[2][1:]))[0])])
+    ctx.cov["evaluations"] += len(lcases)
+    ctx.cov["distinct_nontrivial"] += len({"\n".join(c) for c in lcases if case_info(c)["steps"] >= 3})
+    ctx.sample({"ops": lcases[len(lcases) // 2][:8]})
+    correspond(ctx, "K-C10[linesearch]", lcases, [exe], [drv], run_case=run_case_ls)
 
 
 def replay(ctx, rep):
     exe = build(ctx); drv = ctx.driver("drv_c10")
-    res = run_case(ctx, [exe], [drv], rep["ops"])
+    scalar = case_info(rep["ops"])["opt"] in ("sd", "adam", "rprop")
+    res = (run_case if scalar else run_case_ls)(ctx, [exe], [drv], rep["ops"])
     print("\n".join(f"impl : {a}\nmodel: {b}" for a, b in zip(res.impl, res.model)))
     print("stderr:", res.stderr[-2000:])
     print("OK" if res.ok else "FAILS")
